@@ -8,7 +8,7 @@ package config
 // configured value whenever that value is in range. (DecodePacket's side - nothing above the limit is read or
 // allocated for - is proved in internal/network/mqtt.)
 
-//@ verify (*Config).MaxMessageBytes pre=pre_Config post=post_MaxMessageBytes props=C09
+// @ verify (*Config).MaxMessageBytes pre=pre_Config post=post_MaxMessageBytes props=C09
 func pre_Config(c *Config) bool { return c != nil }
 func post_MaxMessageBytes(c *Config, res0 int64) bool {
 	if c.Limit.MessageSize > 0 && c.Limit.MessageSize <= maxMessageSize {
